@@ -303,7 +303,12 @@ HIST_OPS = [('append', (i,)) for i in HID] + [('extend', ())] + [('extend', (i,)
 def new_msg(cls, id):
     if cls == 'BatchRequest':
         return Request('m', [id], id=id)
+    if id in ERR_IDS and not isinstance(id, bool):
+        return Response(id=id, error=JsonRpcError(7, 'e%s' % id))       # responses with these ids carry an error
     return Response(id=id, result=[id])
+
+
+ERR_IDS = (2, '1')
 
 
 def ref_apply(model, strict, op, ids):
@@ -364,6 +369,15 @@ def run_history(case, rec):
                 break
             if case['cls'] == 'BatchRequest' and not typed_eq(v[2], ['<none>' if i is None else i for i in model]):
                 bad = ('C06:history:BatchRequest wire form', step, model, v)
+                break
+            # derived properties follow the contents (and nothing else - not the messages that were refused)
+            if case['cls'] == 'BatchRequest':
+                derived, want_d = batch.is_notification, all(i is None for i in model)
+            else:
+                derived, want_d = batch.has_error, any((i in ERR_IDS and type(i) in (int, str)) for i in model)
+            if derived != want_d:
+                bad = ('C06:history:%s %s does not follow the contents after a %s %s' % (
+                    case['cls'], 'is_notification' if case['cls'] == 'BatchRequest' else 'has_error', 'failed' if fail else 'successful', op), step, want_d, derived)
                 break
         rec.traces += 1
         rec.state_set.add(hash((case['cls'], strict, hist)))
